@@ -10,10 +10,20 @@
 (*   Release [p, old]                 p gives its slot up (logged BEFORE the slot is freed, or *)
 (*                                    inside the critical section that evicts p); old = TRUE   *)
 (*                                    for an occupant that was present at the start            *)
-(*   Refuse  [p, before, after]       p was refused because of the limit; before / after = the *)
+(*   Refuse  [p, before, after, left] p was refused because of the limit; before / after = the *)
 (*                                    semantic state (live connections, streams, codes,        *)
 (*                                    mappings with their fields; not the state owned by the   *)
 (*                                    other racing requests) when p called and when it returned*)
+(*                                    left (quotas) = key classes of the complete store diff:  *)
+(*                                    every key p itself wrote whose value at the return       *)
+(*                                    differs from the value at the call (a key that came or   *)
+(*                                    went; list items p added / removed) - not only the       *)
+(*                                    counted ones                                             *)
+(*   Retry   [p, mode, ok, why]       after everything ended and room was made (an occupant    *)
+(*                                    closed, a counted code / mapping revoked), the refused   *)
+(*                                    request p was issued again (mode "same": by the same     *)
+(*                                    client; "other": by another client whose quota is empty);*)
+(*                                    why = "limit" or the error code it was turned away with  *)
 (*   Obs     [n]                      occupancy read from the real object at some instant      *)
 (*   Probe   [want, got]              after everything ended: slots found free / expected free *)
 (* Ordering argument: at the line Admit(p) every q in `adm` was really admitted earlier (its   *)
@@ -50,8 +60,11 @@ TrRelease == /\ Is("Release")
                         ELSE adm' = adm /\ gone' = gone \cup {Ev.p}
              /\ l' = l + 1 /\ UNCHANGED <<viol, lim, det, nref>>
 
+\* a refused request changes no state: not the semantic state, and it leaves no other key behind either
+Left == IF Has("left") THEN Ev.left ELSE <<>>
 TrRefuse == /\ Is("Refuse")
             /\ viol' = viol \cup (IF Ev.before = Ev.after THEN {} ELSE {V("RefusedChangedState", det)})
+                           \cup {V("RefusedChangedState", det \o ":leftover=" \o Left[i]) : i \in 1..Len(Left)}
             /\ nref' = nref + 1
             /\ l' = l + 1 /\ UNCHANGED <<lim, pre, adm, gone, det>>
 
@@ -64,9 +77,16 @@ TrProbe == /\ Is("Probe")
            /\ viol' = viol \cup (IF nref > 0 /\ Ev.got < Ev.want THEN {V("RefusedChangedState", det \o ":slot")} ELSE {})
            /\ l' = l + 1 /\ UNCHANGED <<lim, pre, adm, gone, det, nref>>
 
+\* ... so once room has been made the same request is not turned away for any reason but the limit (a second refusal
+\* by the limit is accepted: the statement does not say how much room a revocation makes)
+TrRetry == /\ Is("Retry")
+           /\ viol' = viol \cup (IF Ev.ok \/ Ev.why = "limit" THEN {}
+                                 ELSE {V("RefusedChangedState", det \o ":retry-" \o Ev.mode \o "=" \o Ev.why)})
+           /\ l' = l + 1 /\ UNCHANGED <<lim, pre, adm, gone, det, nref>>
+
 TrEnd == /\ Is("End") /\ EmitVerdict
          /\ l' = l + 1 /\ viol' = {} /\ lim' = 0 /\ pre' = 0 /\ adm' = {} /\ gone' = {} /\ det' = "?" /\ nref' = 0
 
-Next == TrCfg \/ TrAdmit \/ TrRelease \/ TrRefuse \/ TrObs \/ TrProbe \/ TrEnd
+Next == TrCfg \/ TrAdmit \/ TrRelease \/ TrRefuse \/ TrObs \/ TrProbe \/ TrRetry \/ TrEnd
 Spec == Init /\ [][Next]_vars
 =============================================================================
